@@ -40,6 +40,21 @@ CHECKS = [
         "Trusted: reference AVM, O2 evaluator (mc/abstract.py). Bounded program size; exactness only on the direct-check fragment.",
         "explicit-state exploration of the concrete AVM (all size/index pairs) and of an abstract per-value reachability system; invariant = tealer's per-block sets",
         "DESIGN.md 3/C06"),
+    chk("C08", "model_checking",
+        "Layered G2 spaces over address atoms of the four fields (==, != x both operand orders x ZeroAddress, two literals, "
+        "CreatorAddress; shuffled variants for soundness): E1 checks that every accepting run's non-zero address is admitted "
+        "by every block it passes; O2 checks that a block is not 'any address' when no accepting abstract path through it admits "
+        "a fresh address; the ANY/NO set algebra is checked exhaustively (6^2+6^3 cases) against plain set semantics.",
+        "Trusted: reference AVM, O2 evaluator. Address domain: zero, program literals, creator, one fresh address.",
+        "explicit-state exploration (concrete AVM over address representatives; abstract per-value reachability) + exhaustive lattice-operation table",
+        "DESIGN.md 3/C08"),
+    chk("C09", "model_checking",
+        "Layered G2 spaces over Fee atoms (6 operators x both orders x constants incl. 272000/272001): E1 checks fee <= reported "
+        "bound on every block of every accepting run; O2 checks that a bound <= 272000 is credited only when no accepting abstract "
+        "path admits a larger fee, and that programs with a single Fee atom get exactly the implied bound.",
+        "Trusted: reference AVM, O2 evaluator. Fee representatives c-1,c,c+1,0,272000,272001,2^64-1.",
+        "explicit-state exploration (concrete AVM over fee region representatives; abstract per-value reachability)",
+        "DESIGN.md 3/C09"),
 ]
 
 _PENDING = "check not built yet in this session (work in progress; see DESIGN.md section 3 for the planned check)"
